@@ -18,7 +18,8 @@ ID = 'C10'
 LEVEL = 'model_checking'
 TECHNIQUE = C5.TECHNIQUE + '; bytes written after the session-ending event compared with an RFC 4271/6608/4486 table'
 ASSUMPTIONS = C5.ASSUMPTIONS + ['the session-ending event is the last event the peer read (or the injected local event); silence shorter than the hold time never ends a session']
-BOUNDS = C5.BOUNDS
+BOUNDS = {t: dict(b, wire='12 header faults x {OPENSENT, OPENCONFIRM, ESTABLISHED} and 2 body faults (ESTABLISHED), each delivered whole, cut inside the header, '
+                             'or cut after the header and half of the body with 0.35 s of silence between the two segments') for t, b in C5.BOUNDS.items()}
 OUTSIDE = C5.OUTSIDE + ['two faults racing in the same scheduling step', 'NOTIFICATION data field content (only code/subcode are judged)']
 
 OPEN_FAULT = {'open-bad-as': (2, 2), 'open-hold-1': (2, 6), 'open-rid-0': (2, 3), 'open-v3': (2, 1)}
